@@ -425,7 +425,7 @@ func (m *observerManager) FireRemove(evt EventType, e Entity, oldMask *bitMask, 
 	observers := m.observers[evt]
 	found := false
 	for _, o := range observers {
-		if o.hasComps && (newMask.Contains(&o.compsMask) || !oldMask.ContainsAny(&o.compsMask)) {
+		if o.hasComps && (!oldMask.Contains(&o.compsMask) || newMask.ContainsAny(&o.compsMask)) {
 			continue
 		}
 		if o.hasWith && !oldMask.Contains(&o.withMask) {
